@@ -623,7 +623,9 @@ func main() {
 	}
 	runOneConc := func(id int, corr bool) { runConcCase(a, root, rep, dist, sh, clk, id, corr) }
 	if a.Only >= 0 {
-		if a.Only >= concBase {
+		if a.Only == parID {
+			parallelLeg(rep, clk)
+		} else if a.Only >= concBase {
 			runOneConc(a.Only, false)
 		} else {
 			runOneSeq(a.Only, false)
@@ -639,6 +641,7 @@ func main() {
 	for j := 0; j < nConcMon; j++ {
 		runOneConc(concBase+j, j < nConcCorr)
 	}
+	parallelLeg(rep, clk) // real-thread search leg (schedule-independent assertions only)
 	rep.DistinctNontrivial = dist.N()
 	rep.Consts["flow.MillisToNanosOffset"] = flow.MillisToNanosOffset
 	rep.Consts["flow.RuleCheckSlotOrder"] = flow.RuleCheckSlotOrder
